@@ -18,6 +18,18 @@ func outProp(id string) *common.Prop {
 }
 
 var props = []*common.Prop{outProp("C01"), outProp("C04"), outProp("C17"),
+	{ID: "C05", New: func() interface{} { return &JobCase{} },
+		Gen:    func(r *simrt.Rand, tier string, idx int) interface{} { return genJobCase(r, tier) },
+		Run:    func(t *testing.T, c interface{}, trace bool) *common.Outcome { return runJobs(t, c, trace) },
+		Shrink: shrinkJobs},
+	{ID: "C16", New: func() interface{} { return &DeadCase{} },
+		Gen:    func(r *simrt.Rand, tier string, idx int) interface{} { return genDeadCase(r, tier) },
+		Run:    func(t *testing.T, c interface{}, trace bool) *common.Outcome { return runDead(t, c, trace) },
+		Shrink: shrinkDead},
+	{ID: "C18", New: func() interface{} { return &StopCase{} },
+		Gen:    func(r *simrt.Rand, tier string, idx int) interface{} { return genStopCase(r, tier) },
+		Run:    func(t *testing.T, c interface{}, trace bool) *common.Outcome { return runStop(t, c, trace) },
+		Shrink: shrinkStop},
 	{ID: "C03", New: func() interface{} { return &LifeCase{} },
 		Gen:    func(r *simrt.Rand, tier string, idx int) interface{} { return genLifeCase(r, tier) },
 		Run:    func(t *testing.T, c interface{}, trace bool) *common.Outcome { return runLife(t, c, trace) },
